@@ -223,14 +223,44 @@ def check_calls(run, repo, f, rule='R1c'):
     return n_checked
 
 
+def check_methods(run, repo, f, types, rule='R1d'):
+    """(d) a method called on a receiver whose repo classes are inferred must exist in at least one of them."""
+    from ..flow import walk
+    exempt = in_raise(f.node)
+    n = 0
+    for st, ctx in walk(f.node):
+        if isinstance(st, (ast.If, ast.For, ast.While)):
+            nodes = [st.test] if isinstance(st, (ast.If, ast.While)) else [st.iter]
+        elif isinstance(st, (ast.FunctionDef, ast.ClassDef)):
+            continue
+        else:
+            nodes = [st]
+        for root in nodes:
+            for c in ast.walk(root):
+                if isinstance(c, ast.Call) and isinstance(c.func, ast.Attribute) and id(c) not in exempt:
+                    tg, how = types.method_targets(f, c, ctx.conds)
+                    if how == 'typed':
+                        n += 1
+                    elif how == 'missing':
+                        n += 1
+                        run.violation(rule, f, c, 'method `%s` is not defined by %s, the only class(es) this receiver can be: '
+                                      'AttributeError whenever reached' % (c.func.attr, '/'.join(sorted(k.name for k in tg))))
+    return n
+
+
 def check_cone(run, repo, entries, label=''):
-    """Run R1 (a)-(c) over the cone of the given entry Funcs; returns the cone."""
+    """Run R1 (a)-(d) over the cone of the given entry Funcs; returns the cone."""
     cone = repo.cone(entries)
     na = nb = nc = 0
+    types = getattr(repo, '_types', None)
+    if types is None:
+        from ..types import Types
+        types = repo._types = Types(repo)
     for f in cone:
         na += check_names(run, f)
         nb += check_lib_attrs(run, f)
         nc += check_calls(run, repo, f)
+        nc += check_methods(run, repo, f, types)
     run.ok('R1', None, 'cone%s: %d functions, %d names, %d library attribute chains, %d repo calls resolved'
            % ((' ' + label) if label else '', len(cone), na, nb, nc))
     run.cones[label or 'main'] = sorted('%s::%s' % (f.rel, f.qual) for f in cone)
